@@ -80,6 +80,10 @@ class Report:
 
     def finish(self):
         known = self._known()
+        if os.environ.get('RDV_LIST'):
+            for i in self.instances:
+                if os.environ['RDV_LIST'] in ('1', i['rule']):
+                    print('  %s %s/%s  %s' % ('ok ' if i['ok'] else 'BAD', i['rule'], i['key'], i['where']))
         unlisted = []
         listed = []
         seen_keys = set()
